@@ -747,15 +747,16 @@ fn roundtrip<T: Obj>(acc: &mut Acc, case: &Case, t: &T, input: &dyn Fn() -> Valu
         1
     };
     let fail = |sink: &mut Sink, fam: &str, entry: &str, stage: &str, e: &LibErr| -> u8 {
-        let mut key = if e.0 == "error" { format!("C18/{}/kind={}-error/err={}", fam, stage, slug(&e.1)) } else { format!("C18/{}/kind={}-{}", fam, stage, e.0) };
+        let mut key = if e.0 == "error" { format!("C18/{}/kind={}-error", fam, stage) } else { format!("C18/{}/kind={}-{}", fam, stage, e.0) };
         let mut note = String::new();
-        if e.0 == "error" && slug(&e.1).contains("recursion") {
-            // A nesting-limit refusal is identified by the input class it hits: below or at/above the level
-            // that the parsers' default limits refuse on the unchanged library. A limit that bites earlier is a different defect.
+        if e.0 == "error" {
+            // A refusal is identified by the input class it hits, not by the wording of the error (which belongs to serde_json /
+            // ciborium and to the library's error type): at or above the nesting level that the parsers' default limits refuse
+            // on the unchanged library, or below it. A refusal below that level - whatever its message - is a different defect.
             let n = t.nesting();
             let first_refused = if fam == "json" { JSON_REFUSED_NESTING } else { CBOR_REFUSED_NESTING };
             key.push_str(&if n >= first_refused { format!("/nesting>={}", first_refused) } else { format!("/nesting<{}", first_refused) });
-            note = format!(" (the object needs {} nested containers in the library's layout)", n);
+            note = format!(" (the object needs {} nested containers in the library's layout; error class {})", n, slug(&e.1));
         }
         sink.add(key, entry, format!("{} {} failed: {}{}; wire of the original={}", T::NAME, entry, e.1, note, hx(&wire0)));
         if stage == "encode" {
